@@ -308,15 +308,20 @@ fn build_vinit(k: i64) -> Vec<ds::Vertical> {
         ],
     }
 }
-/// `(has init, depth)` for the Lean `bsk` request.
-fn vinit_depth(k: i64) -> (i64, i64) {
-    match k {
-        0 => (0, 0),
-        1 => (1, 196608),
-        2 => (1, 0),
-        4 => (1, 98304),
-        _ => (1, 131072),
+/// The preceding vertical material for the Lean `bsk` request: `<n> (0 | 1 depth)*`.
+fn vinit_nodes(k: i64) -> Vec<i64> {
+    let mut v = vec![];
+    let mut n = 0;
+    for e in build_vinit(k) {
+        n += 1;
+        match e {
+            ds::Vertical::HBox(b) => v.extend([1, b.depth.0 as i64]),
+            ds::Vertical::VBox(b) => v.extend([1, b.depth.0 as i64]),
+            _ => v.push(0),
+        }
     }
+    v.insert(0, n);
+    v
 }
 
 // ------------------------------------------------------------------------------------------
@@ -638,17 +643,31 @@ fn check_break(out: &mut CaseOutcome, drv: &mut Driver, c: &Common, orig: &[ds::
                 }
                 None => out.fail(Kind::ImplVsModel, "lines", format!("model says {model}, real returns lines"), format!("real: {real_s}")),
             }
-            // --- baseline skips ---
-            let (hi, d0) = vinit_depth(c.vinit);
-            let mut req = format!("bsk {hi} {d0} {}", lines.len());
+            // --- interline glue: M (`interline`) and S (TeX §679, \baselineskip=12pt, \lineskiplimit=0pt) ---
+            let mut req = format!("bsk {} {}", join(&vinit_nodes(c.vinit)), lines.len());
             let mut real_b = vec![];
             for ln in lines {
-                req.push_str(&format!(" {} {}", ln.height, ln.depth));
+                req.push_str(&format!(" {} {} {}", ln.height, ln.depth, ln.pen.is_some() as i64));
                 real_b.extend([ln.glue_before.is_some() as i64, ln.glue_before.unwrap_or(0)]);
             }
-            let want = drv.ask(&req);
-            if want != join(&real_b) {
-                out.fail(Kind::ImplVsModel, "baseline", "baseline glue differs from the model", format!("model: {want}\nreal:  {}", join(&real_b)));
+            let reply = parse_i64s(&drv.ask(&req));
+            let (want_m, want_s) = reply.split_at(reply.len() / 2);
+            // TeX's rule applies as coded when the list before the paragraph is empty or has a box, and no
+            // line is so tall that \lineskip would be used (hypotheses of `interline_glue_spec`)
+            let has_box_or_empty = c.vinit != 2;
+            let no_lineskip = want_s.chunks(2).all(|t| t[0] != 2);
+            let mut flagged = false;
+            if has_box_or_empty && no_lineskip {
+                out.tag("interline:TeX 679 applies");
+                if want_s != &real_b[..] {
+                    flagged = true;
+                    out.fail(Kind::ImplVsSpec, "interline", "interline glue differs from TeX 679 (baselineskip - prev_depth - height)", format!("TeX:  {}\nreal: {}", join(want_s), join(&real_b)));
+                }
+            } else {
+                out.tag(if no_lineskip { "interline:outside (no box before the paragraph)" } else { "interline:outside (lineskip)" });
+            }
+            if !flagged && want_m != &real_b[..] {
+                out.fail(Kind::ImplVsModel, "baseline", "baseline glue differs from the model", format!("model: {}\nreal:  {}", join(want_m), join(&real_b)));
             }
             // --- tags ---
             let n = rb.bps.len();
@@ -1205,7 +1224,20 @@ impl C12 {
         if c.widths.len() == 1 && c.il % 2 == 0 {
             args.push(format!("--width={}", sc(c.widths[0])));
         } else {
-            args.push(format!("--widths={}", c.widths.iter().map(|w| sc(*w)).collect::<Vec<_>>().join(", ")));
+            let value = c.widths.iter().map(|w| sc(*w)).collect::<Vec<_>>().join(", ");
+            // M: the fields the model of `split(',')` + `trim` hands to `parse_from_string` are the widths as written
+            let codes: Vec<i64> = value.chars().map(|ch| ch as i64).collect();
+            let fields = parse_i64s(&drv.ask(&format!("wfs {} {}", codes.len(), join(&codes))));
+            let mut want = vec![c.widths.len() as i64];
+            for w in &c.widths {
+                let f = sc(*w);
+                want.push(f.chars().count() as i64);
+                want.extend(f.chars().map(|ch| ch as i64));
+            }
+            if fields != want {
+                out.fail(Kind::ImplVsModel, "cli", "cli: the model's fields of --widths differ from the widths written", format!("option {value:?}: model {fields:?}"));
+            }
+            args.push(format!("--widths={value}"));
         }
         let mut opt = |name: &str, val: String, is_default: bool| {
             if !is_default {
@@ -1544,6 +1576,83 @@ impl C12 {
         let spelled = drv.ask(&format!("spl {n_items}{req}{wreq}"));
         if spelled != "1" {
             out.fail(Kind::ImplVsSpec, "spell", "the list does not spell the words", format!("text {:?}: driver says {spelled}", text));
+        }
+        // --- the whole list against the model `addText` (the real lig/kern runs are its parameter),
+        //     and the text verdict (spelling, one glue per blank run) with the words split by Lean ---
+        {
+            let enc_t = |h: &ds::Horizontal, v: &mut Vec<i64>| match h {
+                ds::Horizontal::Char(c) => v.extend([0, c.char as i64]),
+                ds::Horizontal::Ligature(l) => {
+                    v.extend([1, l.char as i64, l.original_chars.chars().count() as i64]);
+                    v.extend(l.original_chars.chars().map(|c| c as i64));
+                    v.extend([l.includes_left_boundary as i64, l.includes_right_boundary as i64]);
+                }
+                ds::Horizontal::Kern(k) => v.extend([2, k.width.0 as i64]),
+                ds::Horizontal::Discretionary(_) => v.push(3),
+                ds::Horizontal::Glue(g) => {
+                    v.extend([4, 0]);
+                    enc_glue_val(&g.value, v);
+                }
+                _ => v.push(8),
+            };
+            let mut real_items: Vec<i64> = vec![];
+            for h in &list {
+                enc_t(h, &mut real_items);
+            }
+            let text_codes: Vec<i64> = text.chars().map(|c| c as i64).collect();
+            // S on the real list
+            let v = drv.ask(&format!("spt {} {} {} {}", list.len(), join(&real_items), text_codes.len(), join(&text_codes)));
+            if v != "1 1" {
+                let sig = if v.starts_with('0') { "the list does not spell the text (words split by Lean)" } else { "glue items do not match the blank runs of the text" };
+                out.fail(Kind::ImplVsSpec, "text", sig, format!("text {:?}: verdict {v}", text));
+            }
+            // M
+            let mut f3 = self.cmr().file();
+            let prog3 = tfm::ligkern::CompiledProgram::compile_from_tfm_file(&mut f3).0;
+            let mut distinct: Vec<&str> = words.clone();
+            distinct.sort();
+            distinct.dedup();
+            let mut table = format!("{}", distinct.len());
+            for w in &distinct {
+                table.push_str(&format!(" {}", w.chars().count()));
+                for ch in w.chars() {
+                    table.push_str(&format!(" {}", ch as u32));
+                }
+                let items: Vec<tfm::ligkern::RunItem> = prog3.run(w).collect();
+                table.push_str(&format!(" {}", items.len()));
+                for it in &items {
+                    match it {
+                        tfm::ligkern::RunItem::Char(c) => table.push_str(&format!(" 0 {}", *c as u32)),
+                        tfm::ligkern::RunItem::Kern(k) => table.push_str(&format!(" 1 {}", k.0)),
+                        tfm::ligkern::RunItem::Ligature(l) => {
+                            table.push_str(&format!(" 2 {} {}", l.c as u32, l.original.chars().count()));
+                            for ch in l.original.chars() {
+                                table.push_str(&format!(" {}", ch as u32));
+                            }
+                            table.push_str(&format!(" {} {}", l.includes_left_boundary as i64, l.includes_right_boundary as i64));
+                        }
+                    }
+                }
+            }
+            let mut req = format!("adt {}", tc.codes.len());
+            for (c, v) in &tc.codes {
+                req.push_str(&format!(" {c} {v}"));
+            }
+            req.push_str(&format!(
+                " {} {} {} {} {} {} {} {} {table}",
+                join(&tc.space_skip),
+                join(&tc.xspace_skip),
+                par(tfm::NamedParameter::Space),
+                par(tfm::NamedParameter::Stretch),
+                par(tfm::NamedParameter::Shrink),
+                par(tfm::NamedParameter::ExtraSpace),
+                text_codes.len(),
+                join(&text_codes)
+            ));
+            let model = drv.ask(&req);
+            if model != join(&real_items) && out.failures.is_empty() {
+                out.fail(Kind::ImplVsModel, "text", "add_text list differs from the model addText", format!("text {:?}\nmodel: {model}\nreal:  {}", text, join(&real_items)));
+            }
         }
         if !font_kerns_normal {
             out.fail(Kind::ImplVsSpec, "spell", "a kern from the font's lig/kern program is not a normal kern (TeX 1040)", format!("text {:?}", text));
